@@ -22,7 +22,8 @@
 (*   [st |-> "ood"]                outside the domain the properties       *)
 (*                                 speak about (a flag inside a tree       *)
 (*                                 wildcard or at the very end of a        *)
-(*                                 sub-expression): no prediction          *)
+(*                                 sub-expression; a class range whose     *)
+(*                                 bounds are out of order): no prediction *)
 (* Every token carries a (first code point incl. leading flags),           *)
 (* f (first code point excl. flags) and b (one past the last code point).  *)
 (***************************************************************************)
@@ -97,6 +98,8 @@ Class(e, i) ==
       r == ClassItems(e, IF neg THEN i + 2 ELSE i + 1, <<>>) IN
   IF r.st # "ok" THEN Err("syn")
   ELSE IF r.items = <<>> \/ At(e, r.i) # cRB THEN Err("syn")
+  (* a range whose bounds are out of order is not described by the documentation: no prediction *)
+  ELSE IF \E k \in DOMAIN r.items : r.items[k][1] > r.items[k][2] THEN Err("ood")
   ELSE [st |-> "ok", i |-> r.i + 1, neg |-> neg, items |-> r.items]
 
 (* ---- literal ---- *)
